@@ -847,12 +847,18 @@ def own_cases(rng, n):
                 in_txn = False
             if o.startswith("sub(") and rng.random() < 0.6:
                 o = "sub(%s,%s)" % (o[4], rng.choice(adapters))
-            if in_txn and (o.startswith(("poll", "drain", "dropsub", "t.each", "t.eset", "t.eremove", "t.get"))):
-                continue          # not exercised inside a transaction in this mode
+            if in_txn and (o.startswith(("t.each", "t.eset", "t.eremove", "t.get"))):
+                continue          # entry traversal inside a transaction: mode ovec
             if o.startswith(("eset", "eremove")):
                 continue
             ops.append(o)
             r = rng.random()
+            if in_txn and r < 0.15:
+                # subscribers polled / dropped (sometimes all of them) while the transaction is open
+                if rng.random() < 0.5:
+                    ops.extend("dropsub(%d)" % k for k in range(4))
+                else:
+                    ops.append(rng.choice(("dropsub(%d)", "poll(%d)", "drain(%d)")) % rng.randrange(3))
             if not in_txn and r < 0.25:
                 ops.append(rng.choice(("oset(%d)" % rng.randrange(30), "otake", "oupdate(%d)" % rng.randrange(30), "osub",
                                        "opoll(%d)" % rng.randrange(3), "onext(%d)" % rng.randrange(3), "oshare", "oclone",
@@ -862,11 +868,17 @@ def own_cases(rng, n):
 
 
 # ---------------------------------------------------------------- aobs (C16, guards held across calls)
+# the other async writers, with values chosen so that equality (on v/10) and hash equality (on v%10) both
+# hit and miss against the values stored by set(i+1) / gset / each other
+AOBS_WRITERS = ["set_if_not_eq(5)", "set_if_not_eq(21)", "set_if_hash_not_eq(31)", "set_if_hash_not_eq(12)",
+                "take", "update(22)", "update_if(23,0)", "update_if(24,1)"]
+
+
 def aobs_exhaustive(maxlen, nsubs):
     """every history of <= maxlen calls over write/read/set/get/next/next_ref/stream/next_now plus
     gset/gdrop on the guards obtained earlier; all guards still held are dropped at the end."""
     cases = []
-    base = ["write", "read", "set", "get"]
+    base = ["write", "read", "set", "get"] + AOBS_WRITERS
     for k in range(nsubs):
         base += ["next(%d)" % k, "next_ref(%d)" % k, "stream(%d)" % k, "next_now(%d)" % k]
 
@@ -910,8 +922,12 @@ def aobs_random(rng, n, minlen=8, maxlen=30):
                 ops.append("write"); wg.append(i)
             elif r < 0.2:
                 ops.append("read"); rg.append(i)
-            elif r < 0.35:
+            elif r < 0.28:
                 ops.append("set(%d)" % (i + 1))
+            elif r < 0.36:
+                v = rng.choice((0, 5, 11, 12, 21, 22, 31, i + 1))
+                ops.append(rng.choice(("set_if_not_eq(%d)" % v, "set_if_not_eq(%d)" % v, "set_if_hash_not_eq(%d)" % v, "take",
+                                       "update(%d)" % v, "update_if(%d,0)" % v, "update_if(%d,1)" % v)))
             elif r < 0.4:
                 ops.append("get")
             elif r < 0.7:
@@ -930,20 +946,116 @@ def aobs_random(rng, n, minlen=8, maxlen=30):
     return cases
 
 
-def aobs_sandwich(nsubs=1):
+def aobs_sandwich(nsubs=1, quick=False):
     """write ; X ; Y ; gset ; gdrop ; Z ; W  for all calls X Y Z W: futures queued behind a held write
     guard (in both orders), an update through the guard, release, and two follow-up calls."""
-    base = ["write", "read", "set(%d)", "get"]
+    base = ["write", "read", "set(%d)", "get"] + AOBS_WRITERS
     for k in range(nsubs):
         base += ["next(%d)" % k, "next_ref(%d)" % k, "stream(%d)" % k, "next_now(%d)" % k]
     cases = []
+    after = [b for b in base if not quick or b.split("(")[0] in ("set", "get", "next", "next_ref", "stream", "next_now", "take")
+             or b == "set_if_not_eq(5)"]
     for x in base:
         for y in base:
-            for z in base:
-                for w in base:
+            for z in after:
+                for w in after:
                     ops = ["write", x, y, "gset(0,40)", "gdrop(0)", z, w]
-                    ops = [o % (i + 1) if "%d" in o and o.startswith("set") else o for i, o in enumerate(ops)]
+                    ops = [o % (i + 1) if "%d" in o and o.startswith("set(") else o for i, o in enumerate(ops)]
                     held = [i for i, o in enumerate(ops) if o in ("write", "read") and i != 0]
                     ops += ["gdrop(%d)" % g for g in held]
                     cases.append("%d :: %s" % (nsubs, " ; ".join(ops)))
+    return cases
+
+
+# ---------------------------------------------------------------- e2e (adapter stacks on a real ObservableVector)
+def e2e_cases(rng, n, fixed_only=False):
+    cases = []
+    masks = (85, 170, 51, 15, 255, 0)
+
+    def stage(first):
+        kinds = ["head", "tail", "skip", "filter", "filter_map"] + (["sort"] if first else [])
+        k = rng.choice(kinds)
+        if k in ("filter", "filter_map"):
+            return "%s:-:%d" % (k, rng.choice(masks))
+        if k == "sort":
+            return "sort:-:0"
+        fl = "static" if fixed_only else rng.choice(("static", "static", "dyninit", "dynamic"))
+        if k == "tail" and fl == "dynamic":
+            fl = "dyninit"
+        return "%s:%s:%d" % (k, fl, 0 if fl == "dynamic" else rng.randrange(0, 5))
+
+    for _ in range(n):
+        cap = rng.choice((1, 2, 4, 16, 16))
+        init = [rng.randrange(30) for _ in range(rng.randrange(0, 6))]
+        stages = [stage(True)]
+        if rng.random() < 0.6:
+            stages.append(stage(False))
+        has_sort = any(s.startswith("sort") for s in stages)
+        tail_limit = {k: int(s.split(":")[2]) for k, s in enumerate(stages) if s.startswith("tail")}
+        length = len(init)
+        ops = []
+
+        def mut(ln):
+            k = rng.randrange(12)
+            x = rng.randrange(30)
+            if k == 0:
+                a = [rng.randrange(30) for _ in range(rng.randrange(4))]
+                return "append" + vec(a), ln + len(a)
+            if k == 1:
+                return "clear", 0
+            if k == 2:
+                return "push_front(%d)" % x, ln + 1
+            if k in (3, 10, 11):
+                return "push_back(%d)" % x, ln + 1
+            if k == 4:
+                return "pop_front", max(0, ln - 1)
+            if k == 5:
+                return "pop_back", max(0, ln - 1)
+            if k == 6:
+                i = rng.randrange(ln + 1)
+                return "insert(%d,%d)" % (i, x), ln + 1
+            if k == 7 and ln > 0:
+                return "set(%d,%d)" % (rng.randrange(ln), x), ln
+            if k == 8 and ln > 0:
+                return "remove(%d)" % rng.randrange(ln), ln - 1
+            if k == 9 and not has_sort:
+                t = rng.randrange(ln + 2)
+                return "truncate(%d)" % t, min(ln, t)
+            return "push_back(%d)" % x, ln + 1
+
+        for _ in range(rng.randrange(4, 30)):
+            r = rng.random()
+            if r < 0.55:
+                t, length = mut(length)
+                ops.append(t)
+            elif r < 0.7:
+                ops.append("tb")
+                tl = length
+                for _ in range(rng.randrange(1, 7)):
+                    if rng.random() < 0.08:
+                        ops.append("t.rollback")
+                        tl = length
+                    else:
+                        t, tl = mut(tl)
+                        ops.append("t." + t)
+                if rng.random() < 0.85:
+                    ops.append("tc")
+                    length = tl
+                else:
+                    ops.append("td")
+            elif r < 0.78:
+                dyn = [k for k, s in enumerate(stages) if s.split(":")[1] in ("dyninit", "dynamic")]
+                if dyn:
+                    k = rng.choice(dyn)
+                    v = rng.randrange(0, 6)
+                    if k in tail_limit:
+                        v = tail_limit[k] + rng.randrange(0, 3)      # Tail: never decreased here (known finding F4)
+                        tail_limit[k] = v
+                    ops.append("l%d:%d" % (k, v))
+                else:
+                    ops.append("D")
+            else:
+                ops.append("D")
+        ops.append("D")
+        cases.append("cap=%d %s | %s :: %s" % (cap, vec(init), " | ".join(stages), " ; ".join(ops)))
     return cases
